@@ -29,6 +29,7 @@ var registry = map[string]propDef{
 	"C04":  {"other", props.C04},
 	"C04t": {"other", props.C04tweak},
 	"C04s": {"other", props.C04rand},
+	"C04g": {"other", props.C04rows},
 	"C04o": {"other", props.C01offset},
 	"C05o": {"other", props.C01offset},
 	"C05q": {"other", props.C05outputs},
@@ -101,6 +102,7 @@ var registry = map[string]propDef{
 	"C07h": {"other", props.C07hamming},
 	"C09p": {"other", props.C07prefix},
 	"C08":  {"other", props.C08},
+	"C08d": {"other", props.C08dirs},
 	"C09":  {"other", props.C09},
 	"C09g": {"other", props.C09guards},
 	"C11t": {"other", props.C11table},
